@@ -1,0 +1,132 @@
+//go:build verif
+
+package server
+
+import (
+	"context"
+	"net/http/httptest"
+	"sort"
+	"strings"
+
+	"github.com/jdillenkofer/pithos/internal/http/server/authorization"
+	"github.com/jdillenkofer/pithos/internal/storage"
+	"github.com/jdillenkofer/pithos/internal/storage/middlewares/delegator"
+	"go.opentelemetry.io/otel"
+)
+
+// Ghost scenario support (bounded stand-in, see zz_contracts_verif.go).
+
+// verifListingStorage answers ListObjects the way the SQL metadata store does (its contract as read from its code, an
+// assumption of the scenario): the keys behind StartAfter that start with the prefix, in key order; with a delimiter the
+// common prefix of EVERY such key, and as objects the first MaxKeys keys that are not grouped; truncated when more keys
+// than MaxKeys lie behind StartAfter.
+type verifListingStorage struct {
+	delegator.DelegatingStorage
+	keys []string
+}
+
+func (v *verifListingStorage) ListObjects(ctx context.Context, bucketName storage.BucketName, opts storage.ListObjectsOptions) (*storage.ListBucketResult, error) {
+	prefix, delim, after := "", "", ""
+	if opts.Prefix != nil {
+		prefix = *opts.Prefix
+	}
+	if opts.Delimiter != nil {
+		delim = *opts.Delimiter
+	}
+	if opts.StartAfter != nil {
+		after = *opts.StartAfter
+	}
+	res := &storage.ListBucketResult{}
+	seen := map[string]bool{}
+	n := 0
+	for _, k := range v.keys {
+		if k <= after || !strings.HasPrefix(k, prefix) {
+			continue
+		}
+		n++
+		rest := k[len(prefix):]
+		if i := strings.Index(rest, delim); delim != "" && i >= 0 {
+			cp := k[:len(prefix)+i+len(delim)]
+			if !seen[cp] {
+				seen[cp] = true
+				res.CommonPrefixes = append(res.CommonPrefixes, cp)
+			}
+			continue
+		}
+		if int32(len(res.Objects)) < opts.MaxKeys {
+			res.Objects = append(res.Objects, storage.Object{Key: storage.MustNewObjectKey(k)})
+		}
+	}
+	res.IsTruncated = int32(n) > opts.MaxKeys
+	return res, nil
+}
+
+type verifAllowAll struct{}
+
+func (verifAllowAll) AuthorizeRequest(ctx context.Context, request *authorization.Request) (bool, error) {
+	return true, nil
+}
+
+// verifListingPagesCoverEveryKey (ghost scenario, bounded): following the marker the handler hands out, page by page,
+// every key of the bucket is listed exactly once - as a key or under its common prefix - whatever the page size.
+func verifListingPagesCoverEveryKey(picks []uint8, pageSize uint8, withPrefix bool) bool {
+	names := []string{"a/1", "a/2", "b", "c/x", "c/y/z", "d", "e/1", "f", "g/", "h", "p/a/1", "p/a/2", "p/b", "p/c/1", "p/d"}
+	set := map[string]bool{}
+	for _, p := range picks {
+		set[names[int(p)%len(names)]] = true
+	}
+	var keys []string
+	for k := range set {
+		keys = append(keys, k)
+	}
+	sort.Strings(keys)
+	prefix := ""
+	if withPrefix {
+		prefix = "p/"
+	}
+	delim := "/"
+	want := map[string]bool{}
+	for _, k := range keys {
+		if !strings.HasPrefix(k, prefix) {
+			continue
+		}
+		if i := strings.Index(k[len(prefix):], delim); i >= 0 {
+			want[k[:len(prefix)+i+1]] = true
+		} else {
+			want[k] = true
+		}
+	}
+	s := &Server{requestAuthorizer: verifAllowAll{}, storage: &verifListingStorage{keys: keys}, tracer: otel.Tracer("verif")}
+	r := httptest.NewRequest("GET", "http://localhost/bucket", nil)
+	max := int32(pageSize%4) + 1
+	got := map[string]int{}
+	var after *string
+	for page := 0; page <= len(keys)+2; page++ {
+		res, next, err := s.listAndFilterObjects(context.Background(), r, storage.MustNewBucketName("bucket"), storage.ListObjectsOptions{Prefix: &prefix, Delimiter: &delim, StartAfter: after, MaxKeys: max})
+		if err != nil || res == nil {
+			return false
+		}
+		for _, o := range res.Objects {
+			got[o.Key.String()]++
+		}
+		for _, p := range res.CommonPrefixes {
+			got[p]++
+		}
+		if !res.IsTruncated {
+			break
+		}
+		if next == nil {
+			return false
+		}
+		after = next
+	}
+	if len(got) != len(want) {
+		return false
+	}
+	for k, n := range got {
+		if n != 1 || !want[k] {
+			return false
+		}
+	}
+	return true
+}
